@@ -231,6 +231,21 @@ func c06(r *core.Run) {
 		r.Check("C06.G2", core.Key("C06.G2", fn, "bad edge: "+at.name), fn.Pos(), ok,
 			"when "+at.name+" the function returns without registering the storing closure", "from the edge where "+at.name+" the storing closure can still be registered, the loop continues, or the check is missing")
 	}
+	// every iteration validates its entry: the loop moves on to the next entry only from
+	// the edge where the BMT hash equals the key (no `continue` past the comparison, e.g.
+	// for entries "already in the local store" — the entry still carries the peer's bytes)
+	nBack, okBack := 0, true
+	for e := range core.BackEdges(fn) {
+		if e.To != next.Block() {
+			continue
+		}
+		nBack++
+		if len(okEdges) == 0 || !(okEdges[e] || core.OnlyBehind(fn, e.From.Instrs[len(e.From.Instrs)-1], okEdges)) {
+			okBack = false
+		}
+	}
+	r.Check("C06.G2", core.Key("C06.G2", fn, "next entry only after this one's hash matched"), deferIn.Pos(), nBack > 0 && okBack,
+		"the validation loop advances to the next pyramid entry only after the current entry's BMT hash matched its key", "the validation loop can move on to the next entry without comparing the current entry's BMT hash with its key (a skip / continue): that entry's peer-supplied bytes are later parsed, handed on and stored unvalidated")
 	// I1: upper length bound of the accepted entry
 	ia := core.Intervals(fn)
 	okLen := false
